@@ -44,10 +44,13 @@ def sample_cfg(r, emphasis=None):
 def classify_hang(trace_path):
     """D9 signature: thread 0 opened a GVT round (GvtInitiate) after some thread had already left the main
     loop; at the hang some thread is stuck flushing that round (gvt_msg_drain stage 0 without stage 1)
-    while another one waits in the shutdown barrier (stage 1 without stage 2)."""
+    while another one waits in the shutdown barrier (stage 1 without stage 2).
+    D9-stop: the same final shape after RootsimStop(), where a thread that had not yet joined the open
+    round left the main loop because of the stop."""
     exited, st = set(), {}
     init_after_exit = False
     stop_seen = False
+    joined = set()
     for line in open(trace_path):
         try:
             e = json.loads(line)
@@ -60,12 +63,19 @@ def classify_hang(trace_path):
             st.setdefault(e["thr"], set()).add(e.get("st"))
         elif ev == "Stop":
             stop_seen = True
-        elif ev == "GvtInitiate" and exited:
-            init_after_exit = True
+        elif ev == "GvtInitiate":
+            joined = set()
+            if exited:
+                init_after_exit = True
+        elif ev == "GvtStart":
+            joined.add(e["thr"])
     flushing = [t for t in st if 0 in st[t] and 1 not in st[t]]
     at_barrier = [t for t in st if 1 in st[t] and 2 not in st[t]]
-    if init_after_exit and flushing and at_barrier:
-        return "D9-stop" if stop_seen else "D9"
+    if flushing and at_barrier:
+        if init_after_exit and not stop_seen:
+            return "D9"
+        if stop_seen and (init_after_exit or any(t not in joined for t in at_barrier)):
+            return "D9-stop"
     return None
 
 
